@@ -5,11 +5,12 @@ def check(ctx):
     kernel.run_tables(ctx, 'C02', [
         ('Environment', 'step'), ('Event', '__init__'), ('Event', 'succeed'), ('Event', 'fail'), ('Event', 'trigger'),
         ('Event', 'triggered'), ('Event', 'processed'), ('Event', 'ok'), ('Event', 'value'), ('Event', 'defused'),
-        ('Process', '_resume'), ('Process', '__init__'), ('Process', 'is_alive'), ('Condition', '_check'), ('Interruption', '__init__'),
+        ('Process', '_resume'), ('Process', '__init__'), ('Process', 'is_alive'), ('Process', 'succeed'), ('Process', 'fail'), ('Process', 'trigger'), ('Condition', '_check'), ('Interruption', '__init__'),
     ])
     whomay.outcome_writers(ctx, 'C02')
     whomay.callback_list_discipline(ctx, 'C02')
     whomay.exception_cloning(ctx, 'C02')
+    whomay.step_failures_escape(ctx, 'C02')
     whomay.check_writers(ctx, 'C02.W.defused', '_defused', {
         'Event.defused.setter': 'public setter', 'Event.defused': 'public setter', 'Interruption.__init__': 'interrupts are pre-defused',
         'Process._resume': 'the failure is thrown into the process', 'Condition._check': 'the failure is forwarded to the condition'}, 4,
